@@ -323,7 +323,7 @@ theorem appendChild_parent (s s' : Store) (n c : Nat) (h : appendChild s n c = s
   · simp at h
   · simp only [Option.some.injEq] at h
     subst h
-    cases s.last n <;> rfl
+    rfl
 
 theorem insertBefore_parent (s s' : Store) (n c : Nat) (old : Ptr) (h : insertBefore s n c old = some s') :
     s'.parent = upd s.parent c (some n) := by
@@ -332,9 +332,7 @@ theorem insertBefore_parent (s s' : Store) (n c : Nat) (old : Ptr) (h : insertBe
   · simp at h
   · simp only [Option.some.injEq] at h
     subst h
-    cases old with
-    | none => cases s.last n <;> rfl
-    | some o => simp only []; split <;> rfl
+    rfl
 
 theorem removeChild_parent (s s' : Store) (n c : Nat) (h : removeChild s n c = some s') :
     s'.parent = upd s.parent c none := by
@@ -343,8 +341,7 @@ theorem removeChild_parent (s s' : Store) (n c : Nat) (h : removeChild s n c = s
   · simp at h
   · simp only [Option.some.injEq] at h
     subst h
-    simp only []
-    split <;> split <;> split <;> split <;> rfl
+    rfl
 
 /-- `AppendChild` keeps the tree acyclic if `c` is neither `n` nor an ancestor of `n`
 (not checked by the Go code). -/
@@ -434,14 +431,13 @@ theorem removeChild_next (s s' : Store) (n c : Nat) (h : removeChild s n c = som
   · simp at h
   · simp only [Option.some.injEq] at h
     subst h
-    simp only []
+    show upd (match (match s.next c with | some x => upd s.prev x (s.prev c) | none => s.prev) c with
+        | some p => upd s.next p (s.next c) | none => s.next) c none = _
     cases hnx : s.next c with
-    | none =>
-      simp only []
-      split <;> split <;> simp_all [upd]
+    | none => rfl
     | some x =>
-      simp only [upd]
-      split <;> split <;> simp_all
+      have : upd s.prev x (s.prev c) c = s.prev c := by simp only [upd]; split <;> rfl
+      simp only [this]
 
 /-- `RemoveChild` keeps sibling chains finite. -/
 theorem removeChild_acyclicNext (s s' : Store) (n c : Nat) (hc : Consistent s) (ha : AcyclicNext s)
@@ -460,5 +456,323 @@ theorem removeChild_acyclicNext (s s' : Store) (n c : Nat) (hc : Consistent s) (
       apply no_cycle s.next ha p c hpc
       exact ⟨k + 1, by rw [iter_succ_some s.next c j k hj]; exact hk⟩
   · intro j hj; simp at hj
+
+/-- Nothing points at a node whose `prev` is nil (in a consistent store). -/
+theorem not_reached_of_no_prev (s : Store) (hc : Consistent s) (c : Nat) (hp : s.prev c = none)
+    (k x : Nat) : iter s.next (k + 1) x ≠ some c := by
+  induction k generalizing x with
+  | zero =>
+    intro h
+    cases hx : s.next x with
+    | none => simp [iter, hx] at h
+    | some y =>
+      simp only [iter, hx, Option.some.injEq] at h
+      subst h
+      have := (((consistent_iff s).1 hc x).next_ok y hx).1
+      rw [hp] at this; simp at this
+  | succ k ih =>
+    intro h
+    cases hx : s.next x with
+    | none => simp [iter, hx] at h
+    | some y =>
+      rw [iter_succ_some s.next x y (k + 1) hx] at h
+      exact ih y h
+
+theorem insertBefore_next (s s' : Store) (n c : Nat) (old : Ptr) (h : insertBefore s n c old = some s') :
+    s'.next = upd (match (match old with | some o => s.prev o | none => s.last n) with
+                   | some p => upd s.next p (some c) | none => s.next) c old := by
+  unfold insertBefore at h
+  split at h
+  · simp at h
+  · simp only [Option.some.injEq] at h
+    subst h
+    rfl
+
+/-- `InsertBefore` keeps sibling chains finite (consistent store, `oldChild` a child of `n`). -/
+theorem insertBefore_acyclicNext (s s' : Store) (n c : Nat) (old : Ptr) (hc : Consistent s)
+    (ha : AcyclicNext s) (hold : ∀ o, old = some o → s.parent o = some n)
+    (h : insertBefore s n c old = some s') : AcyclicNext s' := by
+  unfold AcyclicNext
+  rw [insertBefore_next s s' n c old h]
+  have hdet : s.parent c = none ∧ s.prev c = none ∧ s.next c = none := by
+    unfold insertBefore at h
+    split at h
+    · simp at h
+    · rename_i hd; simp only [ne_eq, not_or, Decidable.not_not] at hd; exact hd
+  have hcP := (consistent_iff s).1 hc
+  -- `c` is reached from nowhere, and from `c` only `c` is reached
+  have from_c : ∀ y, Reaches s.next c y → y = c := by
+    intro y ⟨k, hk⟩
+    cases k with
+    | zero => simp only [iter, Option.some.injEq] at hk; exact hk.symm
+    | succ k => simp [iter, hdet.2.2] at hk
+  cases old with
+  | none =>
+    simp only []
+    apply term_upd
+    · cases hl : s.last n with
+      | none => exact ha
+      | some l =>
+        simp only []
+        apply term_upd _ _ _ ha
+        intro j hj hr
+        simp only [Option.some.injEq] at hj
+        subst hj
+        have := from_c l hr
+        subst this
+        have := ((hcP n).last_ok _ hl).1
+        rw [hdet.1] at this; simp at this
+    · intro j hj; simp at hj
+  | some o =>
+    have hpo := hold o rfl
+    have hoc : o ≠ c := by
+      intro e; subst e; rw [hdet.1] at hpo; simp at hpo
+    have o_not_c : ¬ Reaches s.next o c := by
+      intro ⟨k, hk⟩
+      cases k with
+      | zero => simp only [iter, Option.some.injEq] at hk; exact hoc hk
+      | succ k => exact not_reached_of_no_prev s hc c hdet.2.1 k o hk
+    simp only []
+    cases hp : s.prev o with
+    | none =>
+      simp only []
+      apply term_upd _ _ _ ha
+      intro j hj
+      simp only [Option.some.injEq] at hj
+      subst hj
+      exact o_not_c
+    | some p =>
+      simp only []
+      have hpn : s.next p = some o := ((hcP o).prev_ok p hp).1
+      have hpp : s.parent p = s.parent o := ((hcP o).prev_ok p hp).2.1
+      have o_not_p : ¬ Reaches s.next o p := no_cycle s.next ha p o hpn
+      apply term_upd
+      · apply term_upd _ _ _ ha
+        intro j hj hr
+        simp only [Option.some.injEq] at hj
+        subst hj
+        have := from_c p hr
+        subst this
+        rw [hdet.1, hpo] at hpp; simp at hpp
+      · intro j hj ⟨k, hk⟩
+        simp only [Option.some.injEq] at hj
+        subst hj
+        rw [iter_upd_of_not_reaches s.next p (some c) k o o_not_p] at hk
+        exact o_not_c ⟨k, hk⟩
+
+/-! ## Any history of mutator calls -/
+
+inductive Op
+  | append (n c : Nat)
+  | insert (n c : Nat) (old : Ptr)
+  | remove (n c : Nat)
+
+def Op.apply (s : Store) : Op → Option Store
+  | .append n c => appendChild s n c
+  | .insert n c old => insertBefore s n c old
+  | .remove n c => removeChild s n c
+
+/-- What the callers must guarantee beyond what the Go mutators check themselves. -/
+def Op.pre (s : Store) : Op → Prop
+  | .append n c => ¬ AncestorOrSelf s c n
+  | .insert n c old => ¬ AncestorOrSelf s c n ∧ ∀ o, old = some o → s.parent o = some n
+  | .remove _ _ => True
+
+/-- Run a history; `none` as soon as a mutator panics. -/
+def runOps (s : Store) : List Op → Option Store
+  | [] => some s
+  | op :: ops => match op.apply s with
+    | some s1 => runOps s1 ops
+    | none => none
+
+/-- The caller-side preconditions hold at every step of the history. -/
+def PreAll : Store → List Op → Prop
+  | _, [] => True
+  | s, op :: ops => op.pre s ∧ (∀ s1, op.apply s = some s1 → PreAll s1 ops)
+
+/-- Well-formedness as an invariant of mutator histories. -/
+structure WF (s : Store) : Prop where
+  consistent : Consistent s
+  acyclicParent : AcyclicParent s
+  acyclicNext : AcyclicNext s
+
+theorem wf_empty : WF Store.empty :=
+  ⟨consistent_empty, fun _ => ⟨1, rfl⟩, fun _ => ⟨1, rfl⟩⟩
+
+theorem op_preserves_wf (s s' : Store) (op : Op) (hw : WF s) (hp : op.pre s)
+    (h : op.apply s = some s') : WF s' := by
+  obtain ⟨h1, h2, h3⟩ := hw
+  cases op with
+  | append n c =>
+    exact ⟨appendChild_consistent s s' n c h1 h, appendChild_acyclic s s' n c h2 hp h,
+           appendChild_acyclicNext s s' n c h1 h3 h⟩
+  | insert n c old =>
+    exact ⟨insertBefore_consistent s s' n c old h1 hp.2 h, insertBefore_acyclic s s' n c old h2 hp.1 h,
+           insertBefore_acyclicNext s s' n c old h1 h3 hp.2 h⟩
+  | remove n c =>
+    exact ⟨removeChild_consistent s s' n c h1 h, removeChild_acyclic s s' n c h2 h,
+           removeChild_acyclicNext s s' n c h1 h3 h⟩
+
+/-- Every store reached from a well-formed one by a history of `InsertBefore` /
+`AppendChild` / `RemoveChild` calls that do not panic and whose callers respect
+`Op.pre` is well-formed. Since (T-fact below) nothing else in package html
+writes link fields, this covers every tree the parser can build. -/
+theorem history_wf (s s' : Store) (ops : List Op) (hw : WF s) (hp : PreAll s ops)
+    (h : runOps s ops = some s') : WF s' := by
+  induction ops generalizing s with
+  | nil => simp only [runOps, Option.some.injEq] at h; subst h; exact hw
+  | cons op ops ih =>
+    simp only [runOps] at h
+    split at h
+    · rename_i s1 h1
+      exact ih s1 (op_preserves_wf s s1 op hw hp.1 h1) (hp.2 s1 h1) h
+    · simp at h
+
+/-- Consistency alone needs only the `oldChild.Parent == n` side condition. -/
+theorem history_consistent (s s' : Store) (ops : List Op) (hc : Consistent s)
+    (hp : ∀ (pre : List Op) (n c : Nat) (old : Ptr) (post : List Op) (s1 : Store),
+      ops = pre ++ .insert n c old :: post → runOps s pre = some s1 → ∀ o, old = some o → s1.parent o = some n)
+    (h : runOps s ops = some s') : Consistent s' := by
+  induction ops generalizing s with
+  | nil => simp only [runOps, Option.some.injEq] at h; subst h; exact hc
+  | cons op ops ih =>
+    simp only [runOps] at h
+    split at h
+    · rename_i s1 h1
+      have hc1 : Consistent s1 := by
+        cases op with
+        | append n c => exact appendChild_consistent s s1 n c hc h1
+        | insert n c old => exact insertBefore_consistent s s1 n c old hc (hp [] n c old ops s rfl rfl) h1
+        | remove n c => exact removeChild_consistent s s1 n c hc h1
+      refine ih s1 hc1 ?_ h
+      intro pre n c old post s2 he hr
+      refine hp (op :: pre) n c old post s2 (by simp [he]) ?_
+      simp only [runOps, h1]; exact hr
+    · simp at h
+
+/-! ## The decision procedure `wfTree` is sound -/
+
+theorem chainEnds_sound (f : Nat → Ptr) (k x : Nat) (h : chainEnds f k x = true) : iter f k x = none := by
+  induction k generalizing x with
+  | zero => simp [chainEnds] at h
+  | succ k ih =>
+    simp only [chainEnds] at h
+    simp only [iter]
+    cases hfx : f x with
+    | none => rfl
+    | some y => simp only [hfx] at h; exact ih y h
+
+theorem ofList_out_of_range (l : List Rec) (x : Nat) (hx : l.length ≤ x) :
+    (ofList l).parent x = none ∧ (ofList l).first x = none ∧ (ofList l).last x = none ∧
+    (ofList l).prev x = none ∧ (ofList l).next x = none := by
+  simp [ofList, Array.getD_eq_getD_getElem?, List.getElem?_eq_none hx, Rec.nil]
+
+/-- What a tree accepted by the checker satisfies. -/
+structure WFTree (s : Store) : Prop where
+  consistent : Consistent s
+  acyclicParent : AcyclicParent s
+  acyclicNext : AcyclicNext s
+  acyclicPrev : AcyclicPrev s
+
+theorem wfTree_sound (l : List Rec) (h : wfTree l = true) :
+    WFTree (ofList l) ∧ ∀ r ∈ l, validType r.ty = true := by
+  unfold wfTree at h
+  simp only [Bool.and_eq_true, List.all_eq_true, List.mem_range] at h
+  obtain ⟨⟨⟨⟨h1, h2⟩, h3⟩, h4⟩, h5⟩ := h
+  have term : ∀ (f : Nat → Ptr), (∀ x, x < l.length → chainEnds f l.length x = true) →
+      (∀ x, l.length ≤ x → f x = none) → Term f := by
+    intro f hin hout x
+    by_cases hx : x < l.length
+    · exact ⟨l.length, chainEnds_sound f _ x (hin x hx)⟩
+    · exact ⟨1, by simp [iter, hout x (by omega)]⟩
+  refine ⟨⟨?_, ?_, ?_, ?_⟩, ?_⟩
+  · intro x
+    by_cases hx : x < l.length
+    · exact h1 x hx
+    · obtain ⟨a, b, c, d, e⟩ := ofList_out_of_range l x (by omega)
+      simp [localOK, a, b, c, d, e]
+  · exact term _ h2 (fun x hx => (ofList_out_of_range l x hx).1)
+  · exact term _ h3 (fun x hx => (ofList_out_of_range l x hx).2.2.2.2)
+  · exact term _ h4 (fun x hx => (ofList_out_of_range l x hx).2.2.2.1)
+  · intro r hr
+    have := h5 r hr
+    simp only [shapeOK, Bool.and_eq_true] at this
+    exact this.1.1
+
+/-- Accepted trees have no node that is its own ancestor or its own later/earlier sibling. -/
+theorem wfTree_no_cycles (l : List Rec) (h : wfTree l = true) (x k : Nat) :
+    iter (ofList l).parent (k + 1) x ≠ some x ∧ iter (ofList l).next (k + 1) x ≠ some x ∧
+    iter (ofList l).prev (k + 1) x ≠ some x := by
+  obtain ⟨⟨_, h2, h3, h4⟩, _⟩ := wfTree_sound l h
+  exact ⟨term_irreflexive _ h2 x k, term_irreflexive _ h3 x k, term_irreflexive _ h4 x k⟩
+
+/-! ## T-facts regenerated from /repo/html on every run -/
+
+/-- Outside node.go no non-test file of package html assigns, increments,
+takes the address of, or initialises (in a `Node{…}` literal) any of
+`.Parent .FirstChild .LastChild .PrevSibling .NextSibling`. -/
+theorem no_link_writes_outside_node_go : Gen.C41.linkWritesOutsideNodeGo = [] := by decide
+
+/-- Inside node.go the link fields are written by the three mutators only. -/
+theorem link_writers_are_the_three_mutators :
+    Gen.C41.nodeGoLinkWriters = ["AppendChild", "InsertBefore", "RemoveChild"] := by decide
+
+/-- `InsertBefore` (the only mutator with an unchecked consistency precondition) has a
+single call site, `parser.fosterParent`. -/
+theorem insertBefore_single_call_site :
+    Gen.C41.insertBeforeCallers = ["parse.go:fosterParent"] := by decide
+
+/-- The source text of the three mutators the model was transcribed from. -/
+def insertBeforeSrcExpected : String :=
+  "{ if newChild.Parent != nil || newChild.PrevSibling != nil || newChild.NextSibling != nil { panic(\"html: InsertBefore called for an attached child Node\") } var prev, next *Node if oldChild != nil { prev, next = oldChild.PrevSibling, oldChild } else { prev = n.LastChild } if prev != nil { prev.NextSibling = newChild } else { n.FirstChild = newChild } if next != nil { next.PrevSibling = newChild } else { n.LastChild = newChild } newChild.Parent = n newChild.PrevSibling = prev newChild.NextSibling = next }"
+def appendChildSrcExpected : String :=
+  "{ if c.Parent != nil || c.PrevSibling != nil || c.NextSibling != nil { panic(\"html: AppendChild called for an attached child Node\") } last := n.LastChild if last != nil { last.NextSibling = c } else { n.FirstChild = c } n.LastChild = c c.Parent = n c.PrevSibling = last }"
+def removeChildSrcExpected : String :=
+  "{ if c.Parent != n { panic(\"html: RemoveChild called for a non-child Node\") } if n.FirstChild == c { n.FirstChild = c.NextSibling } if c.NextSibling != nil { c.NextSibling.PrevSibling = c.PrevSibling } if n.LastChild == c { n.LastChild = c.PrevSibling } if c.PrevSibling != nil { c.PrevSibling.NextSibling = c.NextSibling } c.Parent = nil c.PrevSibling = nil c.NextSibling = nil }"
+
+theorem mutator_sources_pinned :
+    Gen.C41.insertBeforeSrc = insertBeforeSrcExpected ∧
+    Gen.C41.appendChildSrc = appendChildSrcExpected ∧
+    Gen.C41.removeChildSrc = removeChildSrcExpected := ⟨rfl, rfl, rfl⟩
+
+/-! ## Non-vacuity -/
+
+/-- document(0) → html(1) → [head(2), body(3)] -/
+def sampleTree : List Rec :=
+  [⟨2, none, some 1, some 1, none, none⟩, ⟨3, some 0, some 2, some 3, none, none⟩,
+   ⟨3, some 1, none, none, none, some 3⟩, ⟨3, some 1, none, none, some 2, none⟩]
+
+example : wfTree sampleTree = true := by decide
+/-- a parent cycle 0 ↔ 1 with locally consistent links is rejected -/
+example : wfTree [⟨3, some 1, some 1, some 1, none, none⟩, ⟨3, some 0, some 0, some 0, none, none⟩] = false := by decide
+/-- a sibling ring under node 0 with locally consistent links is rejected -/
+example : wfTree [⟨3, none, none, none, none, none⟩, ⟨3, some 0, none, none, some 2, some 2⟩,
+                  ⟨3, some 0, none, none, some 1, some 1⟩] = false := by decide
+example : wfTree [⟨2, none, some 1, some 1, none, none⟩, ⟨7, some 0, none, none, none, none⟩] = false := by decide
+
+example : ∃ s1 s2 s3, runOps Store.empty [.append 0 1, .append 0 2, .insert 0 3 (some 2), .remove 0 1] = some s3 ∧
+    appendChild Store.empty 0 1 = some s1 ∧ appendChild s1 0 2 = some s2 ∧ s3.first 0 = some 3 ∧ s3.next 3 = some 2 :=
+  ⟨_, _, _, rfl, rfl, rfl, by decide, by decide⟩
+
+example : PreAll Store.empty [.append 0 1, .insert 0 2 (some 1)] := by
+  refine ⟨?_, ?_⟩
+  · intro ⟨k, hk⟩
+    cases k with
+    | zero => simp [iter] at hk
+    | succ k => simp [iter, Store.empty] at hk
+  · intro s1 h1
+    simp only [Op.apply] at h1
+    have : s1.parent = upd Store.empty.parent 1 (some 0) := appendChild_parent _ _ 0 1 h1
+    refine ⟨⟨?_, ?_⟩, ?_⟩
+    · intro ⟨k, hk⟩
+      rw [this] at hk
+      cases k with
+      | zero => simp [iter] at hk
+      | succ k => simp [iter, upd, Store.empty] at hk
+    · intro o ho
+      simp only [Option.some.injEq] at ho
+      subst ho
+      rw [this]; simp [upd]
+    · intro s2 _; trivial
 
 end NetVerif.Proofs.C41
